@@ -574,6 +574,21 @@ def empty_field_list_cases(tier):
     return cases
 
 
+def duplicate_name_cases(tier):
+    """A field name declared twice where ONE of the declarations carries a type that is not on the whitelist: whatever a
+    repeated name means, every declared type has to be on the whitelist."""
+    bad = ["os.system", "builtins.eval", "net", "String", "string[][]", "fieldtypes.string", "flow.record.fieldtypes.string",
+           "record[]x", "", "string ", "__import__('os').system('touch %s')" % TRIP]
+    cases = []
+    for b in bad:
+        for fields in ([(b, "a"), ("string", "a")], [("string", "a"), (b, "a")], [(b, "a"), ("string", "a"), ("varint", "a")],
+                       [("varint", "x"), (b, "a"), ("string", "a")], [(b, "a"), ("string", "a"), ("string", "class")],
+                       [(b, "a"), (b, "a"), ("string", "a")]):
+            for ch in ("constructor", "stream", "json", "avro"):
+                cases.append({"name": "t/ok", "fields": fields, "channel": ch, "role": "duplicate-name-hostile-type"})
+    return cases
+
+
 def exhaustive_cases(tier):
     cases = []
     for role in ("type-name", "field-name", "field-type"):
@@ -666,6 +681,7 @@ def parts(tier):
         Part("null-field-list", check_definition, cases=null_field_list_cases, exhaustive=True),
         Part("late-defects-in-long-names", check_definition, cases=late_defect_cases, exhaustive=True),
         Part("empty-field-list", check_definition, cases=empty_field_list_cases, exhaustive=True),
+        Part("duplicate-names-hostile-type", check_definition, cases=duplicate_name_cases, exhaustive=True),
         Part("grouped-record-names", check_definition, cases=grouped_name_cases, exhaustive=True),
         Part("hostile-with-keyword-fields", check_definition, cases=hostile_with_keyword_cases, exhaustive=True),
         Part("generated", check_definition, strategy=generated_case(), examples=(250, 20000)),
